@@ -166,9 +166,27 @@ PAIR_SLICES = {
 }
 
 
+# liveness configurations of MC_Pair.tla (FairSpec, PROPERTY Terminates, no VIEW, history variables frozen)
+PAIR_LIVE = {
+    "pair_live_v311": dict(MaxOps=2),
+    "pair_live_v311_manual": dict(AutoPub=False, AutoPing=False, Ops={"pub1", "pub2", "sub", "ping"}, Sides={"c"}, MaxOps=2),
+    "pair_live_v50": dict(Ver="v50", SRM=1, CRM=2, Ops={"pub1", "pub2"}, MaxOps=2),
+    "pair_live_v50_ka": dict(Ver="v50", KA=10, MaxFire=1, AutoPing=False, Ops={"pub1", "ping"}, Chunks=True, MaxOps=1),
+}
+
+
 def pair_cfg_text(name, edges=True):
     d = dict(PAIR_DEFAULT)
+    if name in PAIR_LIVE:
+        d.update(PAIR_LIVE[name])
+        d["Record"] = False
+        lines = ["\\* generated by lib/slices.py from pair liveness slice '%s' - do not edit" % name,
+                 "SPECIFICATION FairSpec", "CHECK_DEADLOCK FALSE", "PROPERTY Terminates", "CONSTANTS"]
+        for k, v in d.items():
+            lines.append(" %s = %s" % (k, fmt(v)))
+        return "\n".join(lines) + "\n"
     d.update(PAIR_SLICES[name])
+    d["Record"] = True
     lines = ["\\* generated by lib/slices.py from pair slice '%s' - do not edit" % name,
              "SPECIFICATION Spec", "VIEW view", "CHECK_DEADLOCK FALSE", "PROPERTY NoViolation"]
     if edges:
@@ -214,7 +232,7 @@ def write_all(spec_dir):
     for name in SLICES:
         with open(os.path.join(spec_dir, "MC_%s.cfg" % name), "w") as f:
             f.write(cfg_text(name))
-    for name in PAIR_SLICES:
+    for name in list(PAIR_SLICES) + list(PAIR_LIVE):
         with open(os.path.join(spec_dir, "MC_%s.cfg" % name), "w") as f:
             f.write(pair_cfg_text(name))
 
@@ -226,7 +244,7 @@ if __name__ == "__main__":
         os.makedirs(sys.argv[2], exist_ok=True)
         for name in SLICES:
             open(os.path.join(sys.argv[2], "MC_%s.cfg" % name), "w").write(cfg_text(name, edges=False))
-        for name in PAIR_SLICES:
+        for name in list(PAIR_SLICES) + list(PAIR_LIVE):
             open(os.path.join(sys.argv[2], "MC_%s.cfg" % name), "w").write(pair_cfg_text(name, edges=False))
         sys.exit(0)
     write_all(os.path.join(here, "spec"))
